@@ -68,6 +68,92 @@ def traded_bucket_topped_up(s):
     with_faults(s, E("usr1", {"k": "withdraw_purchased", "id": 1}))
 
 
+def traded_bucket_zero_second_fee(s):
+    """C10 / C01: a traded bucket (pending fee) pays for a purchase that itself charges no
+    bucket-side fee: (a) amount below 200, (b) fee denomination switched in between.  The old
+    fee must reach the pool exactly once."""
+    listing(s, "usr0", 1, [["uatom", 7]], G(n=[["ujunox", 200]]))
+    bucket(s, "usr1", 1, [["ujunox", 200]])
+    buy(s, "usr1", 1, 1)                       # bucket 1 -> usr0: 199 ujunox, fee 1 pending
+    listing(s, "usr2", 2, [["uatom", 5]], G(n=[["ujunox", 199]]))
+    buy(s, "usr0", 2, 1, "reuse")              # 199 * 5 / 1000 = 0: no new fee; the old fee is flushed
+    with_faults(s, E("usr2", {"k": "remove_bucket", "id": 1}))
+    s.do(E("usr0", {"k": "withdraw_purchased", "id": 2}), "valid")
+    s.do(E("usr1", {"k": "withdraw_purchased", "id": 1}), "valid")
+    # (b) the denomination switches between the two purchases
+    listing(s, "usr0", 3, [["uatom", 7]], G(n=[["ujunox", 10000]]))
+    bucket(s, "usr1", 3, [["ujunox", 10000]])
+    buy(s, "usr1", 3, 3)                       # bucket 3 -> usr0: 9950 ujunox, fee 50 pending
+    adv(s, 604801)
+    s.do(E("usr3", {"k": "fee_cycle"}), "valid")
+    listing(s, "usr2", 4, [["uatom", 5]], G(n=[["ujunox", 9950]]))
+    buy(s, "usr0", 4, 3, "reuse")              # USDC in force: no fee on a ujunox bucket
+    listing(s, "usr3", 5, [["uosmo", 5]], G(n=[["ujunox", 9950]]))
+    buy(s, "usr2", 5, 3, "reuse")              # traded a third time
+    with_faults(s, E("usr3", {"k": "remove_bucket", "id": 3}))
+    for u, i in (("usr1", 3), ("usr0", 4), ("usr2", 5)):
+        s.do(E(u, {"k": "withdraw_purchased", "id": i}), "valid")
+
+
+def interleaved_collections(s):
+    """C06: several NFTs of one registered collection with NFTs of other collections between
+    them, on the listing side and on the bucket side: one royalty per collection per side."""
+    reg(s, COLL1, 100, "usr5")
+    reg(s, COLL2, 200, "usr4")
+    # seller side: COLL1#1, COLL2#1(usr0 owns tokens 1 and 6 of each), COLL1#6
+    s.do({"t": "nft_send", "user": "usr0", "coll": COLL1, "token_id": "1",
+          "inner": {"k": "create_listing_cw721", "id": 1, "ask": G(n=[["ujunox", 10000]], c=[[CW20A, 3000]]), "wl": None}}, "valid")
+    nft_send(s, "usr0", COLL2, "1", {"k": "add_to_listing_cw721", "id": 1})
+    nft_send(s, "usr0", COLL1, "6", {"k": "add_to_listing_cw721", "id": 1})
+    nft_send(s, "usr0", COLL3, "1", {"k": "add_to_listing_cw721", "id": 1})
+    nft_send(s, "usr0", COLL2, "6", {"k": "add_to_listing_cw721", "id": 1})
+    s.do(E("usr0", {"k": "finalize", "id": 1, "secs": 3600}), "valid")
+    bucket(s, "usr1", 1, [["ujunox", 10000]])
+    cw20_send(s, "usr1", CW20A, 3000, {"k": "add_to_bucket_cw20", "id": 1})
+    buy(s, "usr1", 1, 1)
+    # buyer side: the bucket carries COLL2#2, COLL1#2, COLL2#... (usr1 owns token 2 of each; token 3 is usr2's)
+    listing(s, "usr2", 2, [["uusdcx", 20000], ["uatom", 999]], G(f=[[COLL2, "2"], [COLL1, "2"], [COLL2, "3"]]), finalize=False)
+    cw20_send(s, "usr2", CW20B, 4000, {"k": "add_to_listing_cw20", "id": 2})
+    s.do(E("usr2", {"k": "finalize", "id": 2, "secs": 3600}), "valid")
+    s.do({"t": "nft_transfer", "user": "usr2", "coll": COLL2, "token_id": "3", "to": "usr1"}, "valid")
+    s.do({"t": "nft_send", "user": "usr1", "coll": COLL2, "token_id": "2", "inner": {"k": "create_bucket_cw721", "id": 2}}, "valid")
+    nft_send(s, "usr1", COLL1, "2", {"k": "add_to_bucket_cw721", "id": 2})
+    nft_send(s, "usr1", COLL2, "3", {"k": "add_to_bucket_cw721", "id": 2})
+    buy(s, "usr1", 2, 2)
+    for u, k, i in (("usr0", "remove_bucket", 1), ("usr1", "withdraw_purchased", 1), ("usr2", "remove_bucket", 2), ("usr1", "withdraw_purchased", 2)):
+        s.do(E(u, {"k": k, "id": i}), "valid")
+
+
+def same_id_two_owners(s):
+    """C01 / C03 / C09: a second account asks for a bucket / listing id that another account
+    holds, through every creation path; then the purchase re-keys records onto the other
+    account, where nothing may be overwritten."""
+    # buckets: first creation by NFT hook / CW20 hook / coins, second by the other paths
+    s.do({"t": "nft_send", "user": "usr0", "coll": COLL1, "token_id": "1", "inner": {"k": "create_bucket_cw721", "id": 5}}, "valid")
+    bucket(s, "usr1", 5, [["ujunox", 100]])                                                        # refused: id 5 is taken
+    cw20_send(s, "usr1", CW20A, 70, {"k": "create_bucket_cw20", "id": 5})                         # refused
+    s.do({"t": "cw20_send", "user": "usr0", "token": CW20A, "amount": 40, "inner": {"k": "create_bucket_cw20", "id": 6}}, "valid")
+    bucket(s, "usr1", 6, [["uatom", 100]])                                                         # refused
+    s.do({"t": "nft_send", "user": "usr1", "coll": COLL1, "token_id": "2", "inner": {"k": "create_bucket_cw721", "id": 6}}, "valid")  # refused
+    bucket(s, "usr0", 7, [["uosmo", 9]])
+    s.do({"t": "nft_send", "user": "usr1", "coll": COLL2, "token_id": "2", "inner": {"k": "create_bucket_cw721", "id": 7}}, "valid")  # refused
+    # usr1 sells for exactly what usr0's buckets hold; the buckets are re-keyed onto usr1
+    listing(s, "usr1", 1, [["uatom", 11]], G(f=[[COLL1, "1"]]))
+    listing(s, "usr1", 2, [["uatom", 12]], G(c=[[CW20A, 40]]))
+    listing(s, "usr1", 3, [["uatom", 13]], G(n=[["uosmo", 9]]))
+    buy(s, "usr0", 1, 5)
+    buy(s, "usr0", 2, 6)
+    buy(s, "usr0", 3, 7)
+    # listings: same id asked by a second account through each path while the first is live
+    listing(s, "usr2", 9, [["uatom", 1]], G(n=[["uosmo", 2]]), finalize=False)
+    s.do({"t": "nft_send", "user": "usr3", "coll": COLL1, "token_id": "4", "inner": {"k": "create_listing_cw721", "id": 9, "ask": G(n=[["uosmo", 2]]), "wl": None}}, "valid")
+    s.do({"t": "cw20_send", "user": "usr3", "token": CW20A, "amount": 5, "inner": {"k": "create_listing_cw20", "id": 9, "ask": G(n=[["uosmo", 2]]), "wl": None}}, "valid")
+    s.do(E("usr3", {"k": "create_listing", "id": 9, "ask": G(n=[["uosmo", 2]]), "wl": None}, [["uatom", 3]]), "valid")
+    s.do(E("usr2", {"k": "finalize", "id": 9, "secs": 600}), "valid")
+    bucket(s, "usr3", 9, [["uosmo", 2]])
+    buy(s, "usr3", 9, 9)
+
+
 def fee_boundaries(s):
     """C06 / C17: amounts around multiples of 200, both fee denominations."""
     lid = 0
@@ -286,6 +372,12 @@ def fee_cycle_week(s):
     adv(s, 604801, 5)
     s.do(E("usr0", {"k": "fee_cycle"}), "valid")     # back to JUNO
     buy(s, "usr3", 2, 2)                              # charged in JUNO
+    s.do(E("usr1", {"k": "fee_cycle"}), "valid")     # right after the second switch, same block: refused
+    adv(s, 604799, 0)
+    s.do(E("usr4", {"k": "fee_cycle"}), "valid")     # a week minus ~1 s after the second switch: refused
+    adv(s, 2, 0)
+    s.do(E("usr4", {"k": "fee_cycle"}), "valid")     # third switch
+    s.do(E("usr4", {"k": "fee_cycle"}), "valid")     # and not again
     for u, k, i in (("usr0", "remove_bucket", 1), ("usr1", "withdraw_purchased", 1), ("usr2", "remove_bucket", 2), ("usr3", "withdraw_purchased", 2)):
         s.do(E(u, {"k": k, "id": i}), "valid")
 
@@ -484,6 +576,9 @@ def queries_pages(s):
 SCRIPTS = {
     "traded_bucket_reused": (world.default_cfg, traded_bucket_reused, ()),
     "traded_bucket_topped_up": (world.default_cfg, traded_bucket_topped_up, ()),
+    "traded_bucket_zero_second_fee": (world.default_cfg, traded_bucket_zero_second_fee, ()),
+    "interleaved_collections": (world.default_cfg, interleaved_collections, ()),
+    "same_id_two_owners": (world.default_cfg, same_id_two_owners, ()),
     "fee_boundaries": (world.default_cfg, fee_boundaries, ()),
     "royalties_both_sides": (world.default_cfg, royalties_both_sides, ()),
     "royalty_cap": (royalty_cap_cfg, royalty_cap, ()),
